@@ -111,8 +111,8 @@ def build_corpus(ctx):
     if ctx.quick():
         traces += exhaustive_single_call(3, 0, sample=0.5, rng=rng)
         traces += exhaustive_two_calls(3, len(traces), 0.01, rng)
-        nrand = 3000
-        maxlen = 8
+        nrand = 12000
+        maxlen = 10
     else:
         traces += exhaustive_single_call(5, 0)
         traces += exhaustive_two_calls(4, len(traces), 0.08, rng)
@@ -247,11 +247,17 @@ def run(ctx):
         uniq_real = routs
     st_self = self_test(ctx, uniq, verdicts)
     ctx.note('binding self-test: ' + ', '.join('%s -> %s' % kv for kv in sorted(st_self.items())))
+    # "every call's outcome equals that of the naive procedure" (C03) is also broken when the call returns at the
+    # right read but with another index / occurrence than the naive search: those clauses belong to C02 and C03
+    also = {'C03': ('C02:index', 'C02:after', 'C02:before-does-not-end-at-occurrence', 'C02:reported-match-not-found-by-naive-search')}
     for t in uniq:
         v, at = verdicts[t['id']]
         if v != 'ok' and v.startswith(pid + ':'):
             ctx.fail(v, {'meta': t['meta']}, detail={'event_index': at, 'events': t['ev'][:at]},
                      signature=signature_of(t, v))
+        elif v in also.get(pid, ()):
+            ctx.fail('%s:outcome-differs-from-naive-search(%s)' % (pid, v), {'meta': t['meta']},
+                     detail={'event_index': at, 'events': t['ev'][:at]}, signature=signature_of(t, v))
     status, nviol, nknown = common.conclude(ctx)
     samples = [{'meta': t['meta'], 'events': t['ev'], 'verdict': verdicts[t['id']][0]}
                for t in (uniq[len(uniq) // 3], uniq[-1])]
